@@ -172,7 +172,7 @@ static ARITH: OnceLock<Arc<StdFixture>> = OnceLock::new();
 
 pub fn poseidon() -> Arc<StdFixture> {
     POSEIDON
-        .get_or_init(|| {
+        .get_or_init(|| crate::core::runner::on_fresh_thread(|| {
             let w = [F::from(3), F::from(5), -F::ONE];
             let inst = <PoseidonChip<F> as HashCPU<F, F>>::hash(&w);
             let more = (1..4u64)
@@ -182,13 +182,13 @@ pub fn poseidon() -> Arc<StdFixture> {
                 })
                 .collect();
             Arc::new(build(&PoseidonRel, &inst, w, more).0)
-        })
+        }))
         .clone()
 }
 
 pub fn arith() -> Arc<StdFixture> {
     ARITH
-        .get_or_init(|| {
+        .get_or_init(|| crate::core::runner::on_fresh_thread(|| {
             let (x, y) = (F::from(7), F::from(11));
             let more = (1..4u64)
                 .map(|i| {
@@ -197,6 +197,6 @@ pub fn arith() -> Arc<StdFixture> {
                 })
                 .collect();
             Arc::new(build(&ArithRel, &(x * y + x, y), x, more).0)
-        })
+        }))
         .clone()
 }
